@@ -255,7 +255,7 @@ def gen_sys_op(rng, pool, systems):
         return ('addmol', s, rng.randrange(n + 1))
     if r < 0.42 and n < 9:
         return ('copysys', s)
-    if r < 0.68:
+    if r < 0.68 or n >= 12:          # every successful MergeChains adds a molecule: keep the pool small
         return ('mergeall', s)
     rr = rng.random()
     if rr < 0.3:
